@@ -9,6 +9,7 @@ import (
 	"net/http"
 	"net/url"
 	"os"
+	"sync"
 )
 
 type verifRW struct {
@@ -250,5 +251,53 @@ func VerifC15_IndexServer() {
 	vAssert(err == nil && vEqBytes(b, verifIndexBytes()), "file outside the index store changed")
 	for _, f := range vFSList(root) {
 		vAssert(f == root+"/indexes" || f == root+"/secret" || len(f) > len(root)+9 && f[:len(root)+9] == root+"/indexes/", "object created outside the index store")
+	}
+}
+
+// VerifC15_ConcurrentPut: two uploads (different chunks) served concurrently by a verifying,
+// writable chunk server whose upstream store takes its time: under every interleaving what
+// ends up in the store under each ID is that upload's content (an upload that was verified
+// must be the upload that is stored - no buffer shared between requests).
+func VerifC15_ConcurrentPut() {
+	vPreempt(2)
+	st := &verifStore{yield: true}
+	unc := vChoose("server-uncompressed", 2) == 1
+	conv := Converters{Compressor{}}
+	if unc {
+		conv = Converters{}
+	}
+	h := NewHTTPHandler(st, true, false, conv, "")
+	datas := [][]byte{{0x61, 0x62}, {0x63, 0x64}}
+	codes := make([]int, 2)
+	var wg sync.WaitGroup
+	for k := range datas {
+		k := k
+		wg.Add(1)
+		go func() {
+			defer wg.Done()
+			c := NewChunk(datas[k])
+			id := c.ID()
+			hx := verifHexOf(id[:])
+			body := datas[k]
+			ext := ""
+			if !unc {
+				body, _ = Compress(datas[k])
+				ext = CompressedChunkExt
+			}
+			w := &verifRW{}
+			h.ServeHTTP(w, verifRequest("PUT", "/"+hx[0:4]+"/"+hx+ext, nil, body))
+			codes[k] = w.code
+		}()
+	}
+	wg.Wait()
+	vCover("both-served")
+	for k := range datas {
+		vAssert(codes[k] == 200, "a valid upload was refused")
+		id := NewChunk(datas[k]).ID()
+		b, ok := st.find(id)
+		vAssert(ok, "an accepted upload is not in the store")
+		if ok {
+			vAssert(bytes.Equal(b, datas[k]), "content stored under an ID is not the content that was uploaded and verified for it")
+		}
 	}
 }
